@@ -19,6 +19,7 @@ import (
 	"path/filepath"
 	"reflect"
 	"runtime"
+	"sort"
 	"strings"
 	"sync/atomic"
 
@@ -75,6 +76,12 @@ var sliceUniverse = []*sliceType{
 		mk: func() bigslice.Slice {
 			return bigslice.Prefixed(bigslice.Const(2, []int{1, 2}, []hkey{{1}, {2}}, []string{"a", "b"}), 2)
 		}},
+	{spec: sliceSpec{"IVS<int,[]int,string>/p2/sh3", []reflect.Type{tInt, tInts, tString}, 2, 3},
+		mk: func() bigslice.Slice {
+			return bigslice.Prefixed(bigslice.Const(3, []int{1, 2}, [][]int{{1}, {2}}, []string{"a", "b"}), 2)
+		}},
+	{spec: sliceSpec{"VI<[]int,int>/p1/sh1", []reflect.Type{tInts, tInt}, 1, 1},
+		mk: func() bigslice.Slice { return bigslice.Const(1, [][]int{{1}, {2}}, []int{1, 2}) }},
 	{spec: sliceSpec{"Z<>/unit(scan)/sh2", nil, 1, 2},
 		mk: func() bigslice.Slice { return bigslice.Scan(bigslice.Const(2, []int{1, 2, 3}), scanFn) }},
 }
@@ -253,6 +260,71 @@ type checker struct {
 	// Apply do not say where the error is attributed).
 	noLocation map[string]bool
 	runsFn     map[string]bool // constructors documented to run the function on accept (Apply)
+	// value-argument consistency (see consistent below)
+	groups     map[string]*valueGroup
+	groupOrder []string
+}
+
+// valueGroup collects, for ONE (constructor, input slice type / function
+// signature) combination, what the constructor did for each value of an
+// int-valued argument that lies inside the documented value range (nshard>=1,
+// n>=0). The documented schema is a property of the TYPES only, so the
+// accept/reject outcome must be the same for all of them -- whichever way an
+// open question of the docs (e.g. R5) is answered, two different outcomes cannot
+// both be right.
+type valueGroup struct {
+	ctor, in, sigClass string
+	byOutcome          map[string][]string // observed -> argument values
+	site               string
+}
+
+func (c *checker) consistent(ctor, in, arg, sigClass string, res callResult) {
+	k := ctor + "|" + in
+	g := c.groups[k]
+	if g == nil {
+		g = &valueGroup{ctor: ctor, in: in, sigClass: sigClass, byOutcome: map[string][]string{}}
+		c.groups[k] = g
+		c.groupOrder = append(c.groupOrder, k)
+	}
+	observed := "accepted"
+	if res.panicked {
+		observed = "panic:" + panicClass(res.pv)
+	}
+	g.byOutcome[observed] = append(g.byOutcome[observed], arg)
+	g.site = fmt.Sprintf("%s:%d", res.file, res.line)
+}
+
+func (c *checker) judgeGroups() (ngroups, nmulti int) {
+	for _, k := range c.groupOrder {
+		g := c.groups[k]
+		ngroups++
+		n := 0
+		for _, a := range g.byOutcome {
+			n += len(a)
+		}
+		if n > 1 {
+			nmulti++
+		}
+		if len(g.byOutcome) <= 1 {
+			continue
+		}
+		var parts []string
+		for o, a := range g.byOutcome {
+			parts = append(parts, o+" for "+strings.Join(a, ","))
+		}
+		sort.Strings(parts)
+		c.r.Violate(fmt.Sprintf("C18/%s/verdict-depends-on-value-argument/%s", g.ctor, g.sigClass),
+			fmt.Sprintf("%s(%s, ·): whether the combination is accepted depends on a value-only argument, not on the types: %s",
+				g.ctor, g.in, strings.Join(parts, "; ")),
+			map[string]interface{}{"constructor": g.ctor, "input": g.in, "outcomes": g.byOutcome, "call_site": g.site})
+	}
+	return
+}
+
+// keyClass is the signature class of a slice type for key-dependent constructors.
+func keyClass(s *sliceSpec) string {
+	h, hs := s.keyCaps()
+	return fmt.Sprintf("prefix=%d/keys-hash=%v/keys-hash+sort=%v/zero-col=%v", s.prefix, h, hs, s.n() == 0)
 }
 
 func (c *checker) st(ctor string) *ctorStats {
@@ -468,6 +540,37 @@ func cogroupClass(ss []*sliceSpec) string {
 	return fmt.Sprintf("n=%d/zero-col=%v/same-prefix=%v/same-keytypes=%v/key0-hash=%v/key0-hash+sort=%v", len(ss), zero, samePrefix, sameKeys, h, hs)
 }
 
+// sameArgs reports whether two argument lists hold the same values (reference
+// kinds by identity: func values are never DeepEqual).
+func sameArgs(a, b []interface{}) bool {
+	if len(a) != len(b) {
+		return false
+	}
+	for i := range a {
+		va, vb := reflect.ValueOf(a[i]), reflect.ValueOf(b[i])
+		if va.IsValid() != vb.IsValid() {
+			return false
+		}
+		if !va.IsValid() {
+			continue
+		}
+		if va.Type() != vb.Type() {
+			return false
+		}
+		switch va.Kind() {
+		case reflect.Func, reflect.Chan, reflect.Map, reflect.Slice, reflect.Ptr, reflect.UnsafePointer:
+			if va.Pointer() != vb.Pointer() {
+				return false
+			}
+		default:
+			if !reflect.DeepEqual(a[i], b[i]) {
+				return false
+			}
+		}
+	}
+	return true
+}
+
 // argClass is the signature class of an Invocation/Apply argument list.
 func argClass(f invFunc, nparams int, args []interface{}) string {
 	hasNil := false
@@ -502,7 +605,7 @@ func tuples(n, maxLen int, f func(idx []int)) {
 func main() {
 	r := ev.Start("C18", "exploration")
 	c := &checker{r: r, stats: map[string]*ctorStats{}, outcomes: ev.NewCounter(), samples: map[string]int{},
-		noLocation: map[string]bool{"Apply": true}, runsFn: map[string]bool{"Apply": true}}
+		noLocation: map[string]bool{"Apply": true}, runsFn: map[string]bool{"Apply": true}, groups: map[string]*valueGroup{}}
 
 	// Build the input slices; their own construction is part of the property
 	// (they all fit the documented schemas).
@@ -557,12 +660,13 @@ func main() {
 	}
 
 	// ---- ReaderFunc: nshard × function
-	for _, nshard := range []int{1, 3} {
+	for _, nshard := range []int{1, 2, 3} {
 		for _, fi := range fns {
 			v := predReaderFunc(nshard, fi)
 			before := atomic.LoadInt64(&ranCount)
 			res := callReaderFunc(nshard, fi.v)
 			c.judge("ReaderFunc", fmt.Sprintf("nshard=%d", nshard), fi.name, fnClass(fi), v, res, before)
+			c.consistent("ReaderFunc", fi.name, fmt.Sprintf("nshard=%d", nshard), fnClass(fi), res)
 		}
 	}
 
@@ -596,7 +700,7 @@ func main() {
 		{"&[]int{1,2}", &[]int{1, 2}},
 		{"[]int(nil)", []int(nil)},
 	}
-	for _, nshard := range []int{1, 3} {
+	for _, nshard := range []int{1, 2, 3} {
 		tuples(len(constCols), 3, func(idx []int) {
 			var cols []interface{}
 			var names, classes []string
@@ -620,6 +724,7 @@ func main() {
 			before := atomic.LoadInt64(&ranCount)
 			res := callConst(nshard, cols)
 			c.judge("Const", fmt.Sprintf("nshard=%d", nshard), "("+strings.Join(names, ", ")+")", "first-nonslice-col="+strings.Join(classes, ""), v, res, before)
+			c.consistent("Const", "("+strings.Join(names, ", ")+")", fmt.Sprintf("nshard=%d", nshard), "first-nonslice-col="+strings.Join(classes, ""), res)
 		})
 	}
 
@@ -631,11 +736,14 @@ func main() {
 			res := callPrefixed(in.s, p)
 			c.judge("Prefixed", in.spec.name, fmt.Sprintf("prefix=%d", p), fmt.Sprintf("ncol=%d/prefix=%d", in.spec.n(), p), v, res, before)
 		}
-		for _, n := range []int{-1, 0, 1, 7} {
+		for _, n := range []int{-1, 0, 1, 2, 3, 7} {
 			v := predHead(&in.spec, n)
 			before := atomic.LoadInt64(&ranCount)
 			res := callHead(in.s, n)
 			c.judge("Head", in.spec.name, fmt.Sprintf("n=%d", n), in.spec.name, v, res, before)
+			if n >= 0 {
+				c.consistent("Head", in.spec.name, fmt.Sprintf("n=%d", n), keyClass(&in.spec), res)
+			}
 		}
 		for _, nilFn := range []bool{false, true} {
 			fn := scanFn
@@ -653,11 +761,20 @@ func main() {
 			res := callReshuffle(in.s)
 			c.judge("Reshuffle", in.spec.name, "-", in.spec.name, v, res, before)
 		}
+		// requested shard counts include every input's current count (1, 2, 3):
+		// the "already has that many shards" no-op is part of the cross product.
 		for _, n := range []int{0, 1, 2, 3, 5} {
 			v := predReshard(&in.spec, n)
 			before := atomic.LoadInt64(&ranCount)
 			res := callReshard(in.s, n)
 			c.judge("Reshard", in.spec.name, fmt.Sprintf("nshard=%d", n), in.spec.name, v, res, before)
+			if n >= 1 {
+				same := "differs-from-current"
+				if n == in.spec.nshard {
+					same = "equals-current"
+				}
+				c.consistent("Reshard", in.spec.name, fmt.Sprintf("nshard=%d(%s)", n, same), keyClass(&in.spec), res)
+			}
 		}
 	}
 
@@ -694,7 +811,7 @@ func main() {
 			c.judge("Invocation", f.name, arg, argClass(f, len(fi.in), args), v, res, before)
 			if v.k == vAccept && !res.panicked {
 				inv := res.out.(bigslice.Invocation)
-				if !reflect.DeepEqual(inv.Args, append([]interface{}{}, args...)) && !(len(inv.Args) == 0 && len(args) == 0) {
+				if !sameArgs(inv.Args, args) {
 					r.Violate("C18/Invocation/args-not-carried/func="+f.name, fmt.Sprintf("Invocation%s of %s carries Args %v", arg, f.name, inv.Args), nil)
 				}
 				if inv.Location != "loc" {
@@ -717,6 +834,8 @@ func main() {
 			}
 		})
 	}
+
+	ngroups, nmulti := c.judgeGroups()
 
 	// ---- coverage
 	per := map[string]interface{}{}
@@ -745,8 +864,10 @@ func main() {
 		"distinct_nontrivial": nontrivial,
 		"rule": "For each constructor the full cross product of its argument universe: (slice,function) constructors = " +
 			fmt.Sprintf("%d input slice types x %d function values", len(inputs), len(fns)) +
-			"; ReaderFunc = nshard{1,3} x function values; Func = function values; Const = nshard{1,3} x all column tuples of length 0..3 over 9 column values; " +
-			"Prefixed/Head/Scan/Reshuffle/Reshard = slice types x small ints; Cogroup = all tuples of 0..3 slice types; Invocation/Apply = 12 Funcs x all argument tuples of length 0..3 over 11 values. " +
+			"; ReaderFunc = nshard{1,2,3} x function values; Func = function values; Const = nshard{1,2,3} x all column tuples of length 0..3 over 9 column values; " +
+			"Prefixed/Head/Scan/Reshuffle/Reshard = slice types x small ints (Reshard's requested counts {0,1,2,3,5} contain every input's current count 1..3, so the no-op case is crossed with every key type; Prefixed {-1..4} contains every input's current prefix); Cogroup = all tuples of 0..3 slice types; " +
+			fmt.Sprintf("Invocation/Apply = %d Funcs x all argument tuples of length 0..3 over %d values (named/unnamed pairs of slice, map, func and chan types in both directions, directional channels). ", len(invFuncs), len(invArgs)) +
+			"Value-argument consistency: for Reshard (nshard>=1), Head (n>=0), Const and ReaderFunc (nshard) the observed accept/reject outcome of one (constructor, types) combination must not depend on the int value -- this also binds the cases excluded under R5/R0, whose verdict the docs leave open but which cannot be both in and out of the schema. " +
 			"Quick and thorough tiers are identical (the space is small). An evaluation is one constructor call under recover() compared with the doc-derived predicate. " +
 			"distinct_nontrivial = distinct non-excluded (constructor, input, argument-signature) cases of constructors for which BOTH verdict classes (accept and reject) occurred; " +
 			"Head, Scan, Reshuffle and Reshard have documented schemas without a reject class and are evaluated but not counted. " +
@@ -762,6 +883,8 @@ func main() {
 		"outcomes":                       c.outcomes.Keys(),
 		"input_slice_types":              len(inputs),
 		"function_values":                len(fns),
+		"value_consistency_groups":       ngroups,
+		"value_consistency_groups_multi": nmulti,
 	})
 }
 
